@@ -128,6 +128,26 @@ fn check_truncate(ctx: &Ctx, c: &Case) -> PResult {
         gadget::cross_check(&g, &g.wit, c.seed, "honest truncate circuit")?;
         ctx.label("cross-checked with the real prover");
     }
+    // role-free adversary: the gadget's own wires for another input
+    {
+        let other = Gad::build(vec![Op::Wit(c.r2), Op::Truncate { n: n as u8, a: 65535 }], false)
+            .map_err(|e| Fail::new("truncate-build-error", format!("{e:?}")))?;
+        let inp = g.handle_wit(2);
+        match gadget::transplant(&g, &other, &[inp]) {
+            Some(asg) => {
+                ctx.add_evals(1);
+                ctx.label("adversary: transplant");
+                if g.eval(&asg).is_empty() && asg[ret_w] != want {
+                    let real = g.prove_assignment(&asg, c.seed)?;
+                    return Err(Fail::new(
+                        "truncate-result-decoupled-from-input",
+                        format!("component_truncate::<{n}>({}): the wires computed for another input satisfy every row, returned {} != {} (real: {real:?})", fe_short(&x), fe_short(&asg[ret_w]), fe_short(&want)),
+                    ));
+                }
+            }
+            None => return Err(Fail::new("truncate-shape-depends-on-values", "two builds differ in layout")),
+        }
+    }
     let (hh, hl) = gadget::honest_split(&x, n);
     let honest_vec = gadget::truncate_vec(n, hh, hl, &BtsForge::default());
     if !g.role_model_matches(1, 0, &honest_vec) {
@@ -226,6 +246,28 @@ fn check_decomposition(ctx: &Ctx, c: &Case) -> PResult {
     if c.prove && n <= 64 {
         gadget::cross_check(&g, &g.wit, c.seed, "honest decomposition circuit")?;
         ctx.label("cross-checked with the real prover");
+    }
+    // role-free adversary: bits and running sums of another value
+    {
+        let ov = spec::low_bits(&c.r2.0, n.min(255) as u32);
+        let other = Gad::build(vec![Op::Decompose { n: n as u16, v: Fe(ov) }], false)
+            .map_err(|e| Fail::new("decomposition-build-error", format!("{e:?}")))?;
+        let inp = g.handle_wit(2);
+        match gadget::transplant(&g, &other, &[inp]) {
+            Some(asg) => {
+                ctx.add_evals(1);
+                ctx.label("adversary: transplant");
+                let same_bits = (0..n).all(|i| asg[g.handle_wit(3 + i)] == want_bits[i]);
+                if g.eval(&asg).is_empty() && (!same_bits || !fits) {
+                    let real = g.prove_assignment(&asg, c.seed)?;
+                    return Err(Fail::new(
+                        "decomposition-bits-decoupled-from-input",
+                        format!("component_decomposition::<{n}>({}): the bits of another value satisfy every row (real: {real:?})", fe_short(&x)),
+                    ));
+                }
+            }
+            None => return Err(Fail::new("decomposition-shape-depends-on-values", "two builds differ in layout")),
+        }
     }
     let honest_vec = gadget::decomp_vec(&want_bits);
     if !g.role_model_matches(0, 1, &honest_vec) {
